@@ -508,7 +508,117 @@ impl StepMonitor for CallMon {
     }
 }
 
+/// Heap pressure: callee A allocates all but a chosen gap between the caller's `$sp` and
+/// `$hp`, writes canaries at the bottom of its allocation and returns; the caller then calls
+/// B, whose call frame (600 bytes + padded code) either fits exactly into the gap or misses
+/// it by `-delta` bytes. Fits: B runs and returns, A's heap bytes are still what A wrote.
+/// Does not fit: the CALL panics with MemoryGrowthOverlap (the callee's stack region must
+/// never reach into the heap).
+fn heap_pressure_case(seed: u64, idx: u64, rep: &mut Report) {
+    use crate::world::{
+        ScriptSpec,
+        run_plain,
+    };
+    use fuel_asm::{
+        GTFArgs,
+        op,
+    };
+    let mut rng = Rng::derive(seed ^ (0x34a << 32), 0, idx);
+    let mut world = World::new(fuel_tx::ConsensusParameters::standard(), 0);
+    let k = 60 + rng.below(140) as usize;
+    let mut code_b: Vec<fuel_asm::Instruction> = vec![op::noop(); k];
+    code_b.push(op::ret(RegId::ONE));
+    let len_b = 4 * code_b.len() as u64;
+    let pad_b = len_b.div_ceil(8) * 8;
+    let deltas: [i64; 18] = [-4000, -600, -64, -9, -8, -7, -2, -1, 0, 0, 1, 2, 7, 8, 9, 64, 600, 4000];
+    let delta = deltas[(idx % 18) as usize];
+    let mut code_a = vec![op::movi(0x10, (600 + pad_b) as u32), op::add(0x10, 0x10, RegId::FP)];
+    code_a.push(if delta >= 0 { op::addi(0x10, 0x10, delta as u16) } else { op::subi(0x10, 0x10, (-delta) as u16) });
+    code_a.extend([op::sub(0x12, RegId::HP, 0x10), op::aloc(0x12), op::not(0x13, RegId::ZERO)]);
+    for w in 0..8u16 {
+        code_a.push(op::sw(RegId::HP, 0x13, w));
+    }
+    code_a.push(op::ret(RegId::ONE));
+    let id_a = world.install_contract(code_a.into_iter().collect(), fuel_types::Salt::new(rng.arr()), vec![]);
+    let id_b = world.install_contract(code_b.into_iter().collect(), fuel_types::Salt::new(rng.arr()), vec![]);
+    let mut data = id_a.as_ref().to_vec();
+    data.extend_from_slice(&[0u8; 16]);
+    data.extend_from_slice(id_b.as_ref());
+    data.extend_from_slice(&[0u8; 16]);
+    let script: Vec<u8> = vec![
+        op::gtf_args(0x14, RegId::ZERO, GTFArgs::ScriptData),
+        op::addi(0x15, 0x14, 48),
+        op::call(0x14, RegId::ZERO, 0x14, RegId::CGAS),
+        op::call(0x15, RegId::ZERO, 0x15, RegId::CGAS),
+        op::movi(0x16, 64),
+        op::logd(RegId::ZERO, RegId::ZERO, RegId::HP, 0x16),
+        op::ret(RegId::ONE),
+    ]
+    .into_iter()
+    .collect();
+    let spec = ScriptSpec { script, data, gas_limit: 2_000_000, max_fee: 0, coins: vec![(0, 0, 1000)], contracts: vec![id_a, id_b], ..Default::default() };
+    let replay = json!({"kind": "heap-pressure", "seed": seed, "index": idx, "delta": delta, "callee_code_bytes": len_b});
+    let ready = match spec.ready(&world, idx) {
+        Ok(r) => r,
+        Err(e) => {
+            rep.count("generated_tx_rejected_by_checks");
+            rep.note(format!("heap-pressure script rejected: {}", &e[..e.len().min(120)]));
+            return;
+        }
+    };
+    let (out, _vm) = run_plain(&world, ready);
+    rep.eval();
+    rep.count("heap_pressure_cases");
+    let calls = out.receipts.iter().filter(|r| matches!(r, Receipt::Call { .. })).count();
+    let panic = out.receipts.iter().find_map(|r| match r {
+        Receipt::Panic { reason, .. } => Some(*reason.reason()),
+        _ => None,
+    });
+    let logged: Option<Vec<u8>> = out.receipts.iter().find_map(|r| match r {
+        Receipt::LogData { data, .. } => data.clone().map(|d| d.to_vec()),
+        _ => None,
+    });
+    let fits = delta >= 0;
+    rep.class(format!("heap-pressure|delta {}|{}", if delta < 0 { "<0" } else if delta == 0 { "=0" } else { ">0" }, match panic {
+        Some(p) => format!("panic:{p:?}"),
+        None => "completed".into(),
+    }));
+    if fits {
+        if panic.is_some() || calls != 2 {
+            rep.violation(
+                "C34|heap pressure|a call whose frame fits between $sp and $hp is refused",
+                format!("gap = frame + {delta}: calls completed {calls}, panic {panic:?}, state {:?}", out.state),
+                || replay.clone(),
+            );
+        } else if logged.as_deref() != Some(&[0xffu8; 64][..]) {
+            rep.violation(
+                "C34|heap pressure|heap bytes written by a returned callee changed during a later call",
+                format!("gap = frame + {delta}: the caller reads {} at the bottom of the first callee's allocation", logged.map(|d| hx(&d)).unwrap_or_else(|| "nothing".into())),
+                || replay.clone(),
+            );
+        } else {
+            rep.count("heap_pressure_fitting_calls_ok");
+        }
+    } else if panic != Some(PanicReason::MemoryGrowthOverlap) || calls != 1 {
+        rep.violation(
+            "C34|heap pressure|a call whose frame does not fit between $sp and $hp is not refused with MemoryGrowthOverlap",
+            format!("gap = frame - {}: calls entered {calls}, panic {panic:?}, state {:?}, caller then read {}", -delta, out.state, logged.map(|d| hx(&d)).unwrap_or_else(|| "nothing".into())),
+            || replay.clone(),
+        );
+    } else {
+        rep.count("heap_pressure_overlapping_calls_refused");
+    }
+}
+
 pub fn run(cfg: &Cfg) -> Report {
+    if let Some(r) = &cfg.replay {
+        let c = r.get("case").unwrap_or(r);
+        if c["kind"].as_str() == Some("heap-pressure") {
+            let mut rep = Report::new();
+            heap_pressure_case(c["seed"].as_u64().unwrap_or(0), c["index"].as_u64().unwrap_or(0), &mut rep);
+            return rep;
+        }
+    }
     let opts = |idx: u64, rng: &mut Rng| {
         let mut w = Weights::default();
         w.call = 22;
@@ -544,7 +654,20 @@ pub fn run(cfg: &Cfg) -> Report {
     let mons = |_sc: &Scenario| -> Vec<Box<dyn StepMonitor>> { vec![Box::new(CallMon { shadow: vec![], broken: false, callee_heap: vec![] })] };
     let d = Drive { prop: "C34", stream: 34, quick: 16_000, thorough: 600_000, bus: BusOpts { capture_mem: true, max_steps: 40_000 }, opts: &opts, monitors: &mons, after: None };
     let mut rep = drive(cfg, &d);
-    rep.rule = "generated call trees (chains of up to ~45 contracts, counted self-recursion, random calls with forwarded coins/gas, callee ALOC/storage/transfers, RET and RETD of any length): at every completed CALL the callee's registers ($fp,$ssp,$sp,$is,$pc,$bal,$flag,$cgas) and the 600-byte frame + code in memory vs the documented layout and the world's contract code; at the matching RET/RETD the caller's registers vs the image taken at the CALL (all but $cgas,$ggas,$ret,$retl,$hp; $pc = call pc + 4), $ret/$retl, caller stack bytes, call depth (hook and frame chain in memory), callee heap still readable, RETD data = receipt data. class = (depth bucket, return kind, callee side effects) and (entry, depth bucket, coins, caller kind)".into();
+    if cfg.replay.is_none() {
+        let n = cfg.budget(54, 3600);
+        let hp = crate::par(cfg.threads, |w| {
+            let mut r = Report::new();
+            let mut i = w as u64;
+            while i < n {
+                heap_pressure_case(cfg.seed, i, &mut r);
+                i += cfg.threads.max(1) as u64;
+            }
+            r
+        });
+        rep.merge(hp);
+    }
+    rep.rule = "generated call trees (chains of up to ~45 contracts, counted self-recursion, random calls with forwarded coins/gas, callee ALOC/storage/transfers, RET and RETD of any length): at every completed CALL the callee's registers ($fp,$ssp,$sp,$is,$pc,$bal,$flag,$cgas) and the 600-byte frame + code in memory vs the documented layout and the world's contract code; at the matching RET/RETD the caller's registers vs the image taken at the CALL (all but $cgas,$ggas,$ret,$retl,$hp; $pc = call pc + 4), $ret/$retl, caller stack bytes, call depth (hook and frame chain in memory), callee heap still readable, RETD data = receipt data; heap pressure: a callee allocates all memory but a gap of (next call's frame + delta), delta in -4000..4000 around 0: the next call is refused with MemoryGrowthOverlap iff delta < 0, otherwise completes and the first callee's heap bytes are unchanged. class = (depth bucket, return kind, callee side effects) and (entry, depth bucket, coins, caller kind)".into();
     rep.assume("call frame layout: to 32 | asset id 32 | 64 registers 512 | padded code size 8 | a 8 | b 8, code follows zero padded to 8; which $pc/$cgas/$ggas values are saved in the frame is not judged");
     rep.assume("a callee that reverts or panics ends the whole transaction: nothing to compare");
     rep.note("registers passed through to the callee ($hp, general purpose registers, $of/$err/$ret/$retl) are counted, not judged; a return whose following fetch ends the program is counted, not judged");
@@ -555,6 +678,8 @@ pub fn run(cfg: &Cfg) -> Report {
         rep.gate("returns_checked_RETD", rep.counter("returns_checked_RETD"), 500);
         rep.gate("heap_reads_of_memory_allocated_by_a_returned_callee", rep.counter("heap_reads_of_memory_allocated_by_a_returned_callee"), 10);
         rep.gate("max_depth_reached", rep.counter("max_depth_reached"), 3);
+        rep.gate("heap_pressure_fitting_calls_ok", rep.counter("heap_pressure_fitting_calls_ok"), 10);
+        rep.gate("heap_pressure_overlapping_calls_refused", rep.counter("heap_pressure_overlapping_calls_refused"), 10);
     }
     rep
 }
